@@ -444,7 +444,7 @@ func RunC12Misuse(run *ev.Run) (int, error) {
 }
 
 // C12Worker shards by command line (each distinct -g vector is one module + one CLI batch).
-func C12Worker(w *pool.W, shard, n int, tier string) error {
+func C12Worker(w *pool.W, shard, n int, tier string, runtime bool) error {
 	all := C12Scenarios(tier)
 	groups := map[string][]*Scenario{}
 	var keys []string
@@ -462,7 +462,7 @@ func C12Worker(w *pool.W, shard, n int, tier string) error {
 			mine = append(mine, groups[k]...)
 		}
 	}
-	return ScenarioWorker(w, mine, tier, true)
+	return ScenarioWorker(w, mine, tier, runtime)
 }
 
 // ---- shared sub-method variants: a method-level setting must not leak into generated sub-methods that a sibling reuses ----
